@@ -542,14 +542,16 @@ mod verif_c15 {
     #[kani::proof]
     fn fixed_div_by_zero_saturates() {
         let a: i32 = kani::any();
-        kani::assume(a != i32::MIN);
         let r = Fixed::from_bits(a) / Fixed::ZERO;
         assert!(r.to_bits() == if a < 0 { -0x7FFF_FFFF } else { 0x7FFF_FFFF });
         let s: i32 = kani::any(); let t: i32 = kani::any();
-        kani::assume(s != i32::MIN && t != i32::MIN);
         let m = Fixed::from_bits(s).mul_div(Fixed::from_bits(t), Fixed::ZERO);
         assert!(m.to_bits() == if (s < 0) != (t < 0) { -0x7FFF_FFFF } else { 0x7FFF_FFFF });
-        assert!((-Fixed::from_bits(a)).to_bits() == -a);
+        if a != i32::MIN { assert!((-Fixed::from_bits(a)).to_bits() == -a); }
+        // x / 1.0 == x for every x that is not i32::MIN's neighbourhood of unrepresentable quotients
+        let one = Fixed::ONE;
+        if a != i32::MIN { assert!((Fixed::from_bits(a) / one).to_bits() == a); }
         kani::cover!(a < 0);
+        kani::cover!(a == i32::MIN);
     }
 }
